@@ -1,4 +1,4 @@
-from os.path import getmtime
+from os.path import getmtime, split as split_path
 
 from .util import cached_property, Source
 from .nast import extract_scope
@@ -27,6 +27,13 @@ class SourceModule(Object):
     def __repr__(self):
         # type: () -> str
         return 'SourceModule({}, {})'.format(self.name, self.filename)
+
+    @property
+    def search_path(self):
+        # type: () -> list[str]
+        # where the submodules of a package are looked for; a plain module has none
+        head, tail = split_path(self.filename)
+        return [head] if tail == '__init__.py' else []
 
     @property
     def changed(self):
@@ -101,6 +108,11 @@ class ImportedModule(Object):
         # type: (object) -> None
         self.module = module
         self.changed = False
+
+    @property
+    def search_path(self):
+        # type: () -> list[str]
+        return list(getattr(self.module, '__path__', None) or ())
 
     @cached_property
     def _attrs(self):
